@@ -514,3 +514,214 @@ Example C01_ddl_output_dfrag_refuted :
                         (DdlCore.dtoks (DdlCore.dtab DdlTables.dd_databricks) c ++ r) with
                 | Ok (c', r') => DdlCore.ct_eqb c c' | _ => false end).
 Proof. vm_compute. reflexivity. Qed.
+
+(** * The DML core: INSERT / UPDATE / DELETE around the query core (coq/theories/DmlCore.v,
+    DmlCoreProofs.v; coq/gen/DmlTables.v is regenerated from the running crate by lib/props/c01dml.py) *)
+Require SqlV.DmlCore SqlV.DmlCoreProofs.
+Require SqlVGen.DmlTables.
+
+(** generated side conditions: the query core's [dialect_ok], and the reserved-word lists of the DML
+    keywords contain only DML keywords *)
+Lemma C01_dml_tables_ok : forall d, In d DmlTables.all_mdialects -> DmlCoreProofs.mdialect_ok d = true.
+Proof.
+  intros d H. cbn [DmlTables.all_mdialects In] in H.
+  repeat (destruct H as [H|H]; [subst d; vm_compute; reflexivity|]). destruct H.
+Qed.
+
+(** every record extends the query dialect of the same name *)
+Lemma C01_dml_tables_base : map DmlCore.qd DmlTables.all_mdialects = QueryTables.all_qdialects.
+Proof. reflexivity. Qed.
+
+(** the round trip: for EVERY well-formed statement tree of the fragment (not only parser outputs) -
+    INSERT [INTO] t [(columns)] <query> | DEFAULT VALUES [RETURNING items]; UPDATE <table with joins> SET
+    assignments (column or tuple targets) [FROM <table with joins>] [WHERE e] [RETURNING items]; DELETE [t1, t2]
+    [FROM] <tables with joins> [USING <tables with joins>] [WHERE e] [RETURNING items] [ORDER BY ..] [LIMIT e],
+    with the queries, joins and expressions of the query core inside -, every dialect, every continuation
+    that ends a statement: parsing the printed tokens returns the tree and the continuation, for every
+    fuel from the nesting level up *)
+Theorem C01_dml_roundtrip : forall d s rest fuel,
+  In d DmlTables.all_mdialects ->
+  DmlCoreProofs.mwf d s = true -> DmlCoreProofs.mfrag d (DmlCore.mtoks s ++ rest) = true -> ender rest = true ->
+  (DmlCoreProofs.mlevel s <= fuel)%nat ->
+  DmlCore.parse_dml_core d fuel (DmlCore.mtoks s ++ rest) = Ok (s, rest).
+Proof.
+  intros d s rest fuel Hin. exact (DmlCoreProofs.dml_roundtrip d (C01_dml_tables_ok d Hin) s rest fuel).
+Qed.
+Print Assumptions C01_dml_roundtrip.
+
+Theorem C01_mtoks_injective : forall d s1 s2,
+  In d DmlTables.all_mdialects ->
+  DmlCoreProofs.mwf d s1 = true -> DmlCoreProofs.mwf d s2 = true -> DmlCoreProofs.mfrag d (DmlCore.mtoks s1) = true ->
+  DmlCore.mtoks s1 = DmlCore.mtoks s2 -> s1 = s2.
+Proof.
+  intros d s1 s2 Hin. exact (DmlCoreProofs.mtoks_injective d (C01_dml_tables_ok d Hin) s1 s2).
+Qed.
+Print Assumptions C01_mtoks_injective.
+
+(** a table with its joins in front of the USING clause of DELETE (a follower [C01_query_joins_roundtrip]
+    does not cover): its last join, if any, has a constraint or is CROSS / NATURAL *)
+Theorem C01_dml_joins_before_using : forall d t rest fuel,
+  In d QueryTables.all_qdialects ->
+  twj_wf d t = true -> qfrag d (twj_toks t ++ rest) = true -> DmlCoreProofs.is_using rest = true ->
+  DmlCoreProofs.twj_bare t = false -> (S (twjlevel t) <= fuel)%nat ->
+  parse_twj d fuel (twj_toks t ++ rest) = Ok (t, rest).
+Proof.
+  intros d t rest fuel Hin. exact (DmlCoreProofs.twj_roundtrip_using d (C01_query_tables_ok d Hin) t rest fuel).
+Qed.
+Print Assumptions C01_dml_joins_before_using.
+
+(** the conjuncts of [mwf] that restrict the trees cannot be dropped: the tree is not [mwf], its printed
+    tokens pass [mfrag] and do not parse back to it (computed witnesses on a dialect record with the
+    switch in question) *)
+Definition md_switch (ktab : list qtok) (tr uf nf : bool) : DmlCore.mdialect :=
+  {| DmlCore.qd := qd_switch tr false false; DmlCore.kw_col := [DmlCore.kw DmlCore.DReturning; DmlCore.kw DmlCore.DInto];
+     DmlCore.kw_tab := ktab; DmlCore.ins_tab_alias := false; DmlCore.ins_row_alias := false;
+     DmlCore.ins_empty_cols := false; DmlCore.ins_after_cols := false; DmlCore.upd_from := uf; DmlCore.del_nofrom := nf |}.
+Definition k_set := [DmlCore.kw DmlCore.DSet].
+Definition dml_fails d s :=
+  DmlCoreProofs.mdialect_ok d = true /\ DmlCoreProofs.mwf d s = false /\ DmlCoreProofs.mfrag d (DmlCore.mtoks s) = true /\
+  DmlCore.parse_dml_core d (S (DmlCoreProofs.mlevel s)) (DmlCore.mtoks s ++ []) <> Ok (s, []).
+Definition asg n m := DmlCore.Assign (DmlCore.TCol (qx n)) (xa m).
+
+(** RETURNING is not in RESERVED_FOR_TABLE_ALIAS (a finding about /repo, notes/findings/C01.md): a table
+    without alias directly in front of RETURNING takes the keyword as its alias.
+    DELETE FROM x1 RETURNING x2 *)
+Example C01_dml_returning_alias_refuted :
+  dml_fails (md_switch k_set false true false)
+    (DmlCore.SDelete [] true [tw (qx 1)] None None (Some [IExpr (xa 2)]) [] None) /\
+  (* UPDATE x1 SET x2 = x3 FROM x4 RETURNING x5 *)
+  dml_fails (md_switch k_set false true false)
+    (DmlCore.SUpdate (tw (qx 1)) [asg 2 3] (Some (tw (qx 4))) None (Some [IExpr (xa 5)])) /\
+  (* INSERT INTO x1 SELECT x2 FROM x3 RETURNING x4 *)
+  dml_fails (md_switch k_set false true false)
+    (DmlCore.SInsert true (qx 1) [] (Some (q_sel [IExpr (xa 2)] [tw (qx 3)])) (Some [IExpr (xa 4)])).
+Proof. vm_compute. repeat split; try reflexivity; discriminate. Qed.
+(** ... with RETURNING in the list all three round-trip *)
+Example C01_dml_returning_reserved_ok :
+  let d := md_switch [DmlCore.kw DmlCore.DSet; DmlCore.kw DmlCore.DReturning] false true false in
+  forallb (fun s => DmlCoreProofs.mwf d s)
+    [DmlCore.SDelete [] true [tw (qx 1)] None None (Some [IExpr (xa 2)]) [] None;
+     DmlCore.SUpdate (tw (qx 1)) [asg 2 3] (Some (tw (qx 4))) None (Some [IExpr (xa 5)]);
+     DmlCore.SInsert true (qx 1) [] (Some (q_sel [IExpr (xa 2)] [tw (qx 3)])) (Some [IExpr (xa 4)])] = true.
+Proof. vm_compute. reflexivity. Qed.
+(** INSERT INTO x1 (SELECT x2): the parenthesis is read as the column list (MySQL prints
+    INSERT INTO x1 () (SELECT x2) this way: a finding about /repo) *)
+Example C01_dml_insert_paren_source_refuted :
+  dml_fails (md_switch k_set false true false)
+    (DmlCore.SInsert true (qx 1) [] (Some (Query None (BNested q1) [] None None)) None).
+Proof. vm_compute. repeat split; try reflexivity; discriminate. Qed.
+(** DELETE FROM x1 JOIN x2 USING x3: USING is read as the constraint of the join *)
+Example C01_dml_using_after_bare_join_refuted :
+  dml_fails (md_switch k_set false true false)
+    (DmlCore.SDelete [] true [Twj (TTable (qx 1) None) [Join (JOp JInner JNone) (TTable (qx 2) None)]]
+                     (Some [tw (qx 3)]) None None [] None).
+Proof. vm_compute. repeat split; try reflexivity; discriminate. Qed.
+(** UPDATE x1 SET x2 = x3 FROM x4 where UPDATE .. FROM is not supported: FROM is consumed, the table is not read *)
+Example C01_dml_update_from_refuted :
+  dml_fails (md_switch k_set false false false) (DmlCore.SUpdate (tw (qx 1)) [asg 2 3] (Some (tw (qx 4))) None None).
+Proof. vm_compute. repeat split; try reflexivity; discriminate. Qed.
+(** UPDATE x1 (no assignment) *)
+Example C01_dml_update_no_assignment_refuted :
+  dml_fails (md_switch k_set false true false) (DmlCore.SUpdate (tw (qx 1)) [] None None None).
+Proof. vm_compute. repeat split; try reflexivity; discriminate. Qed.
+(** UPDATE x1 SET x2 = x3 where SET is not in RESERVED_FOR_TABLE_ALIAS: SET is the alias of x1 *)
+Example C01_dml_set_alias_refuted :
+  dml_fails (md_switch [] false true false) (DmlCore.SUpdate (tw (qx 1)) [asg 2 3] None None None).
+Proof. vm_compute. repeat split; try reflexivity; discriminate. Qed.
+(** trailing commas: UPDATE x1 SET x2 = x3, WHERE = x4 - the comma in front of a reserved word ends the list *)
+Example C01_dml_trailing_target_refuted :
+  dml_fails (md_switch k_set true true false)
+    (DmlCore.SUpdate (tw (qx 1)) [asg 2 3; DmlCore.Assign (DmlCore.TCol (QK KWhere)) (xa 4)] None None None).
+Proof. vm_compute. repeat split; try reflexivity; discriminate. Qed.
+(** DELETE x1 (no FROM) where FROM is required; DELETE x1 FROM x2 (table names) where FROM is optional *)
+Example C01_dml_delete_from_keyword_refuted :
+  dml_fails (md_switch k_set false true false) (DmlCore.SDelete [] false [tw (qx 1)] None None None [] None) /\
+  dml_fails (md_switch k_set false true true) (DmlCore.SDelete [qx 1] true [tw (qx 2)] None None None [] None).
+Proof. vm_compute. repeat split; try reflexivity; discriminate. Qed.
+(** INSERT INTO x1 (x2) without a source *)
+Example C01_dml_insert_no_source_refuted :
+  dml_fails (md_switch k_set false true false) (DmlCore.SInsert true (qx 1) [qx 2] None None).
+Proof. vm_compute. repeat split; try reflexivity; discriminate. Qed.
+
+(** * The query core: what the model parser returns (QueryCoreInv.v).
+    [C01_query_roundtrip] above is about every well-formed tree; for PARSER OUTPUTS its hypothesis [qwf] is a
+    theorem: one invariant per parser function / loop of the model (the rest is a suffix of the input, the
+    result is well-formed, the content equation), the mutual recursion query - body - select - table with
+    joins - derived table - expressions with subqueries closed by one induction on the fuel.
+    [fits ts]: at most 10^6 tokens (the model numbers the subqueries of ONE expression from SQ_BASE = 10^6;
+    beyond, the numbering would collide with that of the EXISTS atoms). *)
+Require SqlV.QueryCoreInv.
+
+(** every tree the model parser returns is well-formed, [frag_ok] on its expressions apart, as soon as its
+    expressions are in canonical spelling (as in [C01_core]: an output that contains [==] is not) *)
+Theorem C01_query_outputs_wf : forall d fuel ts q rest,
+  In d QueryTables.all_qdialects -> QueryCoreInv.fits ts ->
+  QueryCore.parse_query d fuel ts = Ok (q, rest) -> QueryCoreInv.qcanonical q = true ->
+  QueryCoreProofs.qwfg false d q = true.
+Proof.
+  intros d fuel ts q rest Hin. exact (QueryCoreInv.query_outputs_wf d fuel ts q rest (C01_query_tables_ok d Hin)).
+Qed.
+Print Assumptions C01_query_outputs_wf.
+
+(** ... and satisfies all of [qwf] when its expressions also pass the conservative fragment test [frag_ok] *)
+Theorem C01_query_outputs_qwf : forall d fuel ts q rest,
+  In d QueryTables.all_qdialects -> QueryCoreInv.fits ts ->
+  QueryCore.parse_query d fuel ts = Ok (q, rest) -> QueryCoreInv.qcanonfrag d q = true ->
+  QueryCoreProofs.qwf d q = true.
+Proof.
+  intros d fuel ts q rest Hin. exact (QueryCoreInv.query_outputs_qwf d fuel ts q rest (C01_query_tables_ok d Hin)).
+Qed.
+Print Assumptions C01_query_outputs_qwf.
+
+(** that test cannot be proved of parser outputs: [SELECT x1 IN (x2) -> x3] (Databricks: lambdas) is accepted,
+    canonical and [qwfg false], but [( x2 ) ->] looks like a lambda to [frag_ok] *)
+Example C01_query_output_frag_refuted :
+  exists d ts q rest,
+    In d QueryTables.all_qdialects /\ QueryCoreInv.fits ts /\
+    QueryCore.parse_query d 10 ts = Ok (q, rest) /\ QueryCoreInv.qcanonical q = true /\
+    QueryCoreProofs.qwfg false d q = true /\ QueryCoreProofs.qwf d q = false /\ QueryCoreInv.qfragx d q = false.
+Proof.
+  exists QueryTables.qd_databricks,
+    [QK KSelect; QE (TAtom false 1); QE (TKw KIn); QE TLParen; QE (TAtom false 2); QE TRParen; QE (TOp K_Arrow);
+     QE (TAtom false 3)].
+  eexists. eexists. split; [cbn; tauto|]. split; [vm_compute; discriminate|].
+  split; [vm_compute; reflexivity|]. vm_compute. repeat split; reflexivity.
+Qed.
+
+(** parse -> print -> parse is a fixpoint for every accepted token list (outputs are well-formed +
+    [C01_query_roundtrip]); the two syntactic fragment tests ([frag_ok] in [qcanonfrag], [qfrag] on the printed
+    tokens) stay hypotheses *)
+Theorem C01_query_fixpoint : forall d fuel ts q rest,
+  In d QueryTables.all_qdialects -> QueryCoreInv.fits ts ->
+  QueryCore.parse_query d fuel ts = Ok (q, rest) ->
+  QueryCoreInv.qcanonfrag d q = true -> QueryCoreProofs.qfrag d (QueryCore.qtoks q ++ rest) = true ->
+  QueryCoreProofs.ender rest = true ->
+  forall fuel', (QueryCore.qlevel q <= fuel')%nat ->
+  QueryCore.parse_query d fuel' (QueryCore.qtoks q ++ rest) = Ok (q, rest).
+Proof.
+  intros d fuel ts q rest Hin. exact (QueryCoreInv.query_fixpoint d fuel ts q rest (C01_query_tables_ok d Hin)).
+Qed.
+Print Assumptions C01_query_fixpoint.
+
+(** the rest is a suffix of the input *)
+Theorem C01_query_suffix : forall d fuel ts q rest,
+  In d QueryTables.all_qdialects ->
+  QueryCore.parse_query d fuel ts = Ok (q, rest) -> exists pre, ts = pre ++ rest.
+Proof.
+  intros d fuel ts q rest Hin. exact (QueryCoreInv.query_suffix d fuel ts q rest (C01_query_tables_ok d Hin)).
+Qed.
+Print Assumptions C01_query_suffix.
+
+(** without canonical spelling the statement is false, as for the operator core: [SELECT x1 == x2] is accepted and
+    its tree is not [canonical] (the printer writes [=]); the tree in canonical spelling ([qnorm]) is what the
+    correspondence evaluates *)
+Example C01_query_output_noncanonical_refuted :
+  exists d ts q rest,
+    In d QueryTables.all_qdialects /\ QueryCoreInv.fits ts /\
+    QueryCore.parse_query d 10 ts = Ok (q, rest) /\ QueryCoreInv.qcanonical q = false /\
+    QueryCoreProofs.qwfg false d q = false /\ QueryCoreProofs.qwfg false d (QueryCore.qnorm q) = true.
+Proof.
+  exists QueryTables.qd_generic, [QK KSelect; QE (TAtom false 1); QE (TOp K_DoubleEq); QE (TAtom false 2)].
+  eexists. eexists. split; [cbn; tauto|]. split; [vm_compute; discriminate|].
+  split; [vm_compute; reflexivity|]. vm_compute. repeat split; reflexivity.
+Qed.
